@@ -1,13 +1,13 @@
-(* C10, clause (c): in vacuum (I2 = 0 and p2 = 0 everywhere) the grad grad B tensor is symmetric in its last two indices and
-   harmonic.  Assembles props/C10_vacuum_Bt_{a,b,c}.v, props/C10_vacuum_ode_{a,b}.v and the tangent slice (re-proved here from C10_common). *)
+(* C10 (e) tangent contraction = arclength derivative of the grad B tensor (with the Frenet-Serret rotation of the frame),
+   and of (c) the tangent slice a = 2 for any current (needs the sigma equation and its derivative). *)
 From Coq Require Import Reals String List Lra Lia QArith Qreals FunctionalExtensionality.
 From QSC Require Import Expr Shallow.
-From QSCGen Require Import G_init_axis G_r1_diagnostics G_calculate_r2 G_residual G_calculate_grad_grad_B_tensor.
-From QSCProps Require Import C10_spec C10_common C10_vacuum_common C10_vacuum_Bt_a C10_vacuum_Bt_b C10_vacuum_Bt_c C10_vacuum_ode_a C10_vacuum_ode_b.
+From QSCGen Require Import G_init_axis G_r1_diagnostics G_calculate_r2 G_residual G_calculate_grad_grad_B_tensor G_calculate_grad_B_tensor.
+From QSCProps Require Import C10_spec C10_common.
 Open Scope R_scope.
 Open Scope string_scope.
 
-Section Vacuum.
+Section Part.
   Context {I : Type} (O : ops I) (HD : derivation O) (S VA V1 V2 : string -> I -> R).
   Hypothesis Hadm : admissible S.
   Hypothesis HA : stage O init_axis S VA.
@@ -80,7 +80,71 @@ Section Vacuum.
     qsimp; field [Es Ep]; nz.
   Ltac two a b c d :=
     intros i; gg_entry a b; gg_entry c d; gg_locals; to_state HG; close i.
+  (* ---- (e) tangent contraction ---- *)
+  Variable VT : string -> I -> R.
+  Hypothesis HT : stage O calculate_grad_B_tensor S VT.
   Hypothesis Hcst : constants S.
+  Notation fct := (fun i => spsi i * B0 i / S "s.d_l_d_varphi" i).
+  Ltac T_fun nm :=
+    unfold_fixes O calculate_grad_B_tensor (st_fix _ _ _ _ HT) (nm :: "tensor.tn" :: "factor" :: nil)%list; to_state HT.
+  Ltac consts i :=
+    let c1 := fresh "c" in let c2 := fresh "c" in let c3 := fresh "c" in let c4 := fresh "c" in let c5 := fresh "c" in
+    let E1 := fresh "E" in let E2 := fresh "E" in let E3 := fresh "E" in let E4 := fresh "E" in let E5 := fresh "E" in
+    destruct (adm_sG_const S Hadm) as [c1 E1]; destruct (adm_spsi_const S Hadm) as [c2 E2];
+    destruct (cst_B0 S Hcst) as [c3 E3]; destruct (cst_iotaN S Hcst) as [c4 E4];
+    let E6 := fresh "E" in destruct (cst_lp S Hcst) as [c5 E6];
+    assert (E5 : S "s.d_l_d_varphi" = fun _ => c5) by
+      (apply functional_extensionality; intros k; rewrite F_dldvp, E6; reflexivity);
+    rewrite ?E1, ?E2, ?E3, ?E4, ?E5; cbv beta.
+  Lemma D_T_tn i : Dv (VT "tensor.tn") i = sG i * B0 i * S "s.d_curvature_d_varphi" i.
+  Proof. T_fun "tensor.tn". consts i. dv_push. fin. Qed.
+  Lemma D_T_nt i : Dv (VT "tensor.nt") i = sG i * B0 i * S "s.d_curvature_d_varphi" i.
+  Proof. T_fun "tensor.nt". consts i. dv_push. fin. Qed.
+  Lemma D_T_nn i : Dv (VT "tensor.nn") i = fct i * (S "s.d2_X1c_d_varphi2" i * Y1s i + S "s.d_X1c_d_varphi" i * S "s.d_Y1s_d_varphi" i
+       + S "s.iotaN" i * (S "s.d_X1c_d_varphi" i * Y1c i + X1c i * S "s.d_Y1c_d_varphi" i)).
+  Proof. T_fun "tensor.nn". consts i. dv_push. fin. Qed.
+  Lemma D_T_bb i : Dv (VT "tensor.bb") i = fct i * (S "s.d_X1c_d_varphi" i * S "s.d_Y1s_d_varphi" i + X1c i * S "s.d2_Y1s_d_varphi2" i
+       - S "s.iotaN" i * (S "s.d_X1c_d_varphi" i * Y1c i + X1c i * S "s.d_Y1c_d_varphi" i)).
+  Proof. T_fun "tensor.bb". consts i. dv_push. fin. Qed.
+  Lemma D_T_bn i : Dv (VT "tensor.bn") i = fct i * (- sG i * spsi i * S "s.d_l_d_varphi" i * S "s.d_torsion_d_varphi" i
+       - S "s.iotaN" i * (2 * X1c i * S "s.d_X1c_d_varphi" i)).
+  Proof. T_fun "tensor.bn". consts i. dv_push. fin. Qed.
+  Lemma D_T_nb i : Dv (VT "tensor.nb") i = fct i * (S "s.d2_Y1c_d_varphi2" i * Y1s i - S "s.d2_Y1s_d_varphi2" i * Y1c i
+       + sG i * spsi i * S "s.d_l_d_varphi" i * S "s.d_torsion_d_varphi" i
+       + S "s.iotaN" i * (2 * Y1s i * S "s.d_Y1s_d_varphi" i + 2 * Y1c i * S "s.d_Y1c_d_varphi" i)).
+  Proof. T_fun "tensor.nb". consts i. dv_push. fin. Qed.
+  (* pointwise values of the grad B tensor *)
+  Ltac T_vals := unfold_fixes O calculate_grad_B_tensor (st_fix _ _ _ _ HT)
+     ("tensor.nn" :: "tensor.nb" :: "tensor.nt" :: "tensor.bn" :: "tensor.bb" :: "tensor.tn" :: "factor" :: nil)%list; to_state HT.
+  Ltac tang a l :=
+    intros i; gg_entry a l; gg_locals; to_state HG;
+    cbv beta iota delta [dTdl ddl T W];
+    rewrite ?D_T_nn, ?D_T_nb, ?D_T_nt, ?D_T_bn, ?D_T_bb, ?D_T_tn, ?(Dv_cst O HD S); T_vals; rewrite ?F_dldvp; close i.
+  Lemma tan_00 : forall i, S "s.grad_grad_B_2_0_0" i = dTdl O S VT 0 0 i.
+  Proof. tang "s.grad_grad_B_2_0_0" "grad_grad_B_2_0_0#2". Qed.
+  Lemma tan_01 : forall i, S "s.grad_grad_B_2_0_1" i = dTdl O S VT 0 1 i.
+  Proof. tang "s.grad_grad_B_2_0_1" "grad_grad_B_2_0_1#2". Qed.
+  Lemma tan_02 : forall i, S "s.grad_grad_B_2_0_2" i = dTdl O S VT 0 2 i.
+  Proof. tang "s.grad_grad_B_2_0_2" "grad_grad_B_2_0_2#2". Qed.
+  Lemma tan_10 : forall i, S "s.grad_grad_B_2_1_0" i = dTdl O S VT 1 0 i.
+  Proof. tang "s.grad_grad_B_2_1_0" "grad_grad_B_2_1_0#2". Qed.
+  Lemma tan_11 : forall i, S "s.grad_grad_B_2_1_1" i = dTdl O S VT 1 1 i.
+  Proof. tang "s.grad_grad_B_2_1_1" "grad_grad_B_2_1_1#2". Qed.
+  Lemma tan_12 : forall i, S "s.grad_grad_B_2_1_2" i = dTdl O S VT 1 2 i.
+  Proof. tang "s.grad_grad_B_2_1_2" "grad_grad_B_2_1_2#2". Qed.
+  Lemma tan_20 : forall i, S "s.grad_grad_B_2_2_0" i = dTdl O S VT 2 0 i.
+  Proof. tang "s.grad_grad_B_2_2_0" "grad_grad_B_2_2_0#2". Qed.
+  Lemma tan_21 : forall i, S "s.grad_grad_B_2_2_1" i = dTdl O S VT 2 1 i.
+  Proof. tang "s.grad_grad_B_2_2_1" "grad_grad_B_2_2_1#2". Qed.
+  Lemma tan_22 : forall i, S "s.grad_grad_B_2_2_2" i = dTdl O S VT 2 2 i.
+  Proof. tang "s.grad_grad_B_2_2_2" "grad_grad_B_2_2_2#2". Qed.
+  Theorem C10_tangent_contraction_p : tangent_contraction O S VT.
+  Proof.
+    intros i a b Ha Hb. unfold G.
+    destruct a as [|[|[|a]]]; try lia; destruct b as [|[|[|b]]]; try lia;
+      first [apply tan_00|apply tan_01|apply tan_02|apply tan_10|apply tan_11|apply tan_12|apply tan_20|apply tan_21|apply tan_22].
+  Qed.
+  (* ---- (c), tangent slice only: the sigma equation and its derivative ---- *)
   Variable VR : string -> I -> R.
   Hypothesis HR : stage O residual S VR.
   Hypothesis Hsig : sigma_solved O S VR.
@@ -92,8 +156,6 @@ Section Vacuum.
   Local Notation S_d2Y1c := (C10_common.S_d2Y1c O HD S VA V1 V2 Hadm HA H1 H2 Hcst VR HR Hsig).
   Local Notation sigE := (C10_common.sigE S).
   Local Notation sigE2 := (C10_common.sigE2 S).
-  Hypothesis Hvac : vacuum_hyp S.
-  Hypothesis Hode : r2_solved V2.
   Ltac close2 i := rewrite ?S_d2Y1c, ?S_dY1c; close i.
   Lemma sl_201 : forall i, S "s.grad_grad_B_2_0_1" i = S "s.grad_grad_B_2_1_0" i.
   Proof. intros i; gg_entry "s.grad_grad_B_2_0_1" "grad_grad_B_2_0_1#2"; gg_entry "s.grad_grad_B_2_1_0" "grad_grad_B_2_1_0#2"; gg_locals; to_state HG; close2 i. Qed.
@@ -101,59 +163,11 @@ Section Vacuum.
   Proof. intros i; gg_entry "s.grad_grad_B_2_0_2" "grad_grad_B_2_0_2#2"; gg_entry "s.grad_grad_B_2_2_0" "grad_grad_B_2_2_0#2"; gg_locals; to_state HG; close2 i. Qed.
   Lemma sl_212 : forall i, S "s.grad_grad_B_2_1_2" i - S "s.grad_grad_B_2_2_1" i = 2 * sG i * spsi i * S "s.I2" i * kap i.
   Proof. intros i; gg_entry "s.grad_grad_B_2_1_2" "grad_grad_B_2_1_2#2"; gg_entry "s.grad_grad_B_2_2_1" "grad_grad_B_2_2_1#2"; gg_locals; to_state HG; close2 i. Qed.
-
-  Theorem C10_vacuum_Bt : vacuum_Bt_part S.
+  Theorem C10_tangent_slice_curl_p : tangent_slice_curl S.
+  Proof. intros i. unfold G. split; [apply sl_201|split; [apply sl_202|apply sl_212]]. Qed.
+  Theorem C10_vacuum_tangent_slice_symmetric_p : vacuum_tangent_slice_symmetric S.
   Proof.
-    intros i.
-    pose proof (C10_vacuum_Bt_a O HD S VA V1 V2 Hadm HA H1 H2 VG HG Hcst VR HR Hsig Hvac i) as A.
-    destruct (C10_vacuum_Bt_b O HD S VA V1 V2 Hadm HA H1 H2 VG HG Hcst VR HR Hsig Hvac i) as (B1 & B2).
-    destruct (C10_vacuum_Bt_c O HD S VA V1 V2 Hadm HA H1 H2 VG HG Hcst VR HR Hsig Hvac i) as (C1 & C2).
-    repeat split; assumption.
+    intros HI i b c Hb Hc. destruct (C10_tangent_slice_curl_p i) as (E1 & E2 & E3). rewrite HI in E3.
+    destruct b as [|[|[|b]]]; try lia; destruct c as [|[|[|c]]]; try lia; first [reflexivity|assumption|symmetry; assumption|lra].
   Qed.
-  Theorem C10_vacuum_ode : vacuum_ode_part S.
-  Proof.
-    intros i.
-    destruct (C10_vacuum_ode_a O HD S VA V1 V2 Hadm HA H1 H2 VG HG Hcst VR HR Hsig Hvac Hode i) as (A1 & A2).
-    destruct (C10_vacuum_ode_b O HD S VA V1 V2 Hadm HA H1 H2 VG HG Hcst VR HR Hsig Hvac Hode i) as (B1 & B2).
-    repeat split; assumption.
-  Qed.
-
-  Theorem C10_sym23 : sym23 S.
-  Proof.
-    intros i a b c Ha Hb Hc.
-    destruct (C10_vacuum_Bt i) as (B1 & B2 & B3 & B4 & _).
-    destruct (C10_vacuum_ode i) as (D1 & D2 & _).
-    pose proof (sl_201 i) as T1. pose proof (sl_202 i) as T2. pose proof (sl_212 i) as T3.
-    rewrite (proj1 Hvac) in T3. unfold G in *. cbn [dg append] in *.
-    destruct a as [|[|[|a]]]; try lia; destruct b as [|[|[|b]]]; try lia; destruct c as [|[|[|c]]]; try lia;
-      cbn [dg append]; first [reflexivity|assumption|symmetry; assumption|lra].
-  Qed.
-  Theorem C10_harmonic : harmonic S.
-  Proof.
-    intros i c Hc.
-    destruct (C10_vacuum_Bt i) as (_ & _ & _ & _ & B5).
-    destruct (C10_vacuum_ode i) as (_ & _ & D3 & D4).
-    destruct c as [|[|[|c]]]; try lia; assumption.
-  Qed.
-End Vacuum.
-
-(* clause (c) of the property, closed form *)
-Theorem C10_vacuum :
-  forall (I : Type) (O : ops I), derivation O ->
-  forall S VA V1 V2 VG VR : string -> I -> R,
-    admissible S -> constants S -> vacuum_hyp S ->
-    stage O init_axis S VA ->
-    stage O r1_diagnostics_h0 S V1 \/ stage O r1_diagnostics_hN S V1 ->
-    stage O calculate_r2_h0 S V2 \/ stage O calculate_r2_hN S V2 -> r2_solved V2 ->
-    stage O residual S VR -> sigma_solved O S VR ->
-    stage O calculate_grad_grad_B_tensor S VG ->
-    sym23 S /\ harmonic S.
-Proof.
-  intros I O HD S VA V1 V2 VG VR Hadm Hcst Hvac HA H1 H2 Hode HR Hsig HG. split.
-  - exact (C10_sym23 O HD S VA V1 V2 Hadm HA H1 H2 VG HG Hcst VR HR Hsig Hvac Hode).
-  - exact (C10_harmonic O HD S VA V1 V2 Hadm HA H1 H2 VG HG Hcst VR HR Hsig Hvac Hode).
-Qed.
-Check C10_sym23. Check C10_harmonic. Check C10_vacuum.
-Print Assumptions C10_sym23.
-Print Assumptions C10_harmonic.
-Print Assumptions C10_vacuum.
+End Part.
